@@ -1,13 +1,23 @@
 use crate::sup::{Check, Ctx};
 
 pub mod c01;
+pub mod c05;
 pub mod c06;
+pub mod c07;
+pub mod c08;
+pub mod c13;
+pub mod c14;
 pub mod c15;
 
 pub fn make(id: &str) -> Option<Box<dyn Check>> {
     match id {
         "C01" => Some(Box::new(c01::C01::new())),
+        "C05" => Some(Box::new(c05::C05::new())),
         "C06" => Some(Box::new(c06::C06::new())),
+        "C07" => Some(Box::new(c07::C07::new())),
+        "C08" => Some(Box::new(c08::C08::new())),
+        "C13" => Some(Box::new(c13::C13::new())),
+        "C14" => Some(Box::new(c14::C14::new())),
         "C15" => Some(Box::new(c15::C15::new())),
         _ => None,
     }
